@@ -265,7 +265,7 @@ func (e *Engine) Bin(world string, race bool) string {
 // ---- sampling
 
 var ops = []string{"echoJSON", "echoJSON", "echoJSONStream", "echoForm", "echoMultipart", "echoStream", "variants", "secure", "secure2", "echoWild", "echoParams", "echoParams", "echoShapes", "echoShapes", "echoSeg", "echoOpt", "echoAny", "echoItem", "echoItem", "echoItemRecent"}
-var invalids = []string{"pattern", "regexp2", "multipleOf", "maxLength", "enum", "tagpattern", "maxprops", "maxItems", "unique", "notelong", "aliaslong", "retriesbig", "ratioedge", "subnum", "sublabel", "attrlong", "attrsempty", "treelabel", "treelong", "twigsize", "twiglabel"}
+var invalids = []string{"pattern", "regexp2", "multipleOf", "maxLength", "enum", "tagpattern", "maxprops", "maxItems", "unique", "notelong", "aliaslong", "retriesbig", "ratioedge", "subnum", "sublabel", "attrlong", "attrsempty", "treelabel", "treelong", "twigsize", "twiglabel", "multnear"}
 var readers = []string{"bytes", "bytes", "onebyte", "dataerr", "half"}
 var creds = []string{"header", "basic+query", "bearer", "header", "none", "wrong"}
 
